@@ -13,8 +13,8 @@ theorem uint64_of_nat (v : Int) (n : Nat) (hv : v = (n : Int)) (h : n < 2 ^ 64) 
 
 theorem uint64_zero : uint64 0 = 0 := by decide
 
-theorem specRead_zero (data : Bytes) (off : Nat) : specRead data off 0 = [] := by
-  unfold specRead; simp
+theorem specRead_zero (data : Bytes) (off : Nat) : specRead data off 0 = [] :=
+  List.eq_nil_of_length_eq_zero (specRead_length _ _ _)
 
 theorem specWrite_nil (mem : Bytes) (off : Nat) : specWrite mem off [] = mem := by
   apply List.ext_getElem?
